@@ -467,41 +467,71 @@ impl std::ops::Mul<i32> for Glue {
 }
 
 impl Glue {
+    /// One component (stretch or shrink) of TeX.2021.1239.
+    ///
+    /// `r` is the component of the register being advanced, `q` the component of the glue
+    /// that was scanned. A zero amount of `q` counts as order normal; the register's
+    /// component replaces `q` only if it is of higher order _and_ non-zero.
+    fn add_component(
+        r: (Scaled, GlueOrder),
+        q: (Scaled, GlueOrder),
+        add: impl Fn(Scaled, Scaled) -> Option<Scaled>,
+    ) -> Option<(Scaled, GlueOrder)> {
+        let q = if q.0 == Scaled::ZERO {
+            (q.0, GlueOrder::Normal)
+        } else {
+            q
+        };
+        Some(if q.1 == r.1 {
+            (add(q.0, r.0)?, q.1)
+        } else if q.1 < r.1 && r.0 != Scaled::ZERO {
+            r
+        } else {
+            q
+        })
+    }
+
     /// TeX.2021.1239
     pub fn wrapping_add(self, rhs: Glue) -> Self {
-        use std::cmp::Ordering::*;
+        let add = |a: Scaled, b: Scaled| Some(a.wrapping_add(b));
+        let (stretch, stretch_order) = Glue::add_component(
+            (self.stretch, self.stretch_order),
+            (rhs.stretch, rhs.stretch_order),
+            add,
+        )
+        .expect("wrapping addition cannot fail");
+        let (shrink, shrink_order) = Glue::add_component(
+            (self.shrink, self.shrink_order),
+            (rhs.shrink, rhs.shrink_order),
+            add,
+        )
+        .expect("wrapping addition cannot fail");
         Glue {
             width: self.width.wrapping_add(rhs.width),
-            stretch: match self.stretch_order.cmp(&rhs.stretch_order) {
-                Less => rhs.stretch,
-                Equal => self.stretch.wrapping_add(rhs.stretch),
-                Greater => self.stretch,
-            },
-            stretch_order: self.stretch_order.max(rhs.stretch_order),
-            shrink: match self.shrink_order.cmp(&rhs.shrink_order) {
-                Less => rhs.shrink,
-                Equal => self.shrink.wrapping_add(rhs.shrink),
-                Greater => self.shrink,
-            },
-            shrink_order: self.shrink_order.max(rhs.shrink_order),
+            stretch,
+            stretch_order,
+            shrink,
+            shrink_order,
         }
     }
     pub fn checked_add(self, rhs: Glue) -> Option<Self> {
-        use std::cmp::Ordering::*;
+        let add = |a: Scaled, b: Scaled| a.checked_add(b);
+        let (stretch, stretch_order) = Glue::add_component(
+            (self.stretch, self.stretch_order),
+            (rhs.stretch, rhs.stretch_order),
+            add,
+        )?;
+        let (shrink, shrink_order) = Glue::add_component(
+            (self.shrink, self.shrink_order),
+            (rhs.shrink, rhs.shrink_order),
+            add,
+        )?;
         Some(Glue {
             width: self.width.checked_add(rhs.width)?,
-            stretch: match self.stretch_order.cmp(&rhs.stretch_order) {
-                Less => rhs.stretch,
-                Equal => self.stretch.checked_add(rhs.stretch)?,
-                Greater => self.stretch,
-            },
-            stretch_order: self.stretch_order.max(rhs.stretch_order),
-            shrink: match self.shrink_order.cmp(&rhs.shrink_order) {
-                Less => rhs.shrink,
-                Equal => self.shrink.checked_add(rhs.shrink)?,
-                Greater => self.shrink,
-            },
-            shrink_order: self.shrink_order.max(rhs.shrink_order),
+            stretch,
+            stretch_order,
+            shrink,
+            shrink_order,
         })
     }
     pub fn checked_mul(self, rhs: i32) -> Option<Self> {
